@@ -1008,6 +1008,22 @@ func ruleGrow(r *Report) {
 				}
 				return false
 			}, 12)
+			// where the extent enters through `if size > capacity { capacity = size }`, the branch has
+			// the polarity of a maximum (the other way round it is a minimum: the column ends up
+			// smaller than the fill list whenever that matters)
+			isExtent := func(v ssa.Value) bool {
+				return dependsOn(v, func(z ssa.Value) bool {
+					fr, ok := fieldOf(z)
+					return ok && fr.Struct == "column.Collection" && fr.Field == "fill"
+				}, 8)
+			}
+			if phi, isPhi := strip(c.Args[0]).(*ssa.Phi); isPhi && dep && len(phi.Edges) == 2 {
+				for i, e := range phi.Edges {
+					if isExtent(e) && !isExtent(phi.Edges[1-i]) && !takenWhenLarger(phi, i) {
+						dep = false
+					}
+				}
+			}
 			h.Check(dep, "(*column.Collection).CreateColumn/extent", r.P.InstrPos(grow), "new column grown to the fill list's extent", "a column created after rows exist is grown to max(count, Capacity), not to the extent of the fill list: in a sparse collection rows live at offsets beyond the count and the first write to the new column there indexes out of range")
 		}
 		// grown before it is published
@@ -1332,6 +1348,7 @@ func ruleRegister(r *Report) {
 			h.Check(!byName || (a.Parent() == b.Parent() && precedes(a, b)), name+"/order", r.P.Pos(dc[0].Inner.Pos()), "detached from the target's list while its name still resolves", "the name is unregistered before DeleteIndex, which finds the computed column through that name: nothing is detached and the dropped trigger or index keeps receiving the target column's updates")
 		}
 	}
+	ruleDeleteIndexBody(r)
 }
 
 func ruleBackfill(r *Report) {
@@ -1872,4 +1889,56 @@ func monotoneGuard(fn *ssa.Function, call ssa.Instruction) bool {
 		}
 	}
 	return monotone && nFalse <= 1
+}
+
+// takenWhenLarger: edge i of the two-way φ is selected by a branch that holds exactly when its value
+// is larger than (or equal to) the other edge's value: φ = max(edges). False when the branch is
+// recognised and has the other polarity; true when the shape is not a simple if (nothing to say).
+func takenWhenLarger(phi *ssa.Phi, i int) bool {
+	blk := phi.Block()
+	if len(blk.Preds) != 2 {
+		return true
+	}
+	p := blk.Preds[i]
+	var q *ssa.BasicBlock
+	var edge int
+	if len(p.Preds) == 1 && len(p.Instrs) == 1 {
+		q = p.Preds[0] // the `then` block holding only the jump
+	} else {
+		return true
+	}
+	iff, ok := q.Instrs[len(q.Instrs)-1].(*ssa.If)
+	if !ok {
+		return true
+	}
+	if q.Succs[0] == p {
+		edge = 0
+	} else {
+		edge = 1
+	}
+	cond := iff.Cond
+	pol := edge == 0
+	for {
+		if x, isNot := isNot(cond); isNot {
+			cond, pol = x, !pol
+			continue
+		}
+		break
+	}
+	bo, isB := cond.(*ssa.BinOp)
+	if !isB {
+		return true
+	}
+	op, x, y, _, _ := canonBin(bo)
+	if op != token.LSS && op != token.LEQ {
+		return true
+	}
+	big, other := phi.Edges[i], phi.Edges[1-i]
+	switch {
+	case sameExpr(x, other) && sameExpr(y, big): // other < big on the true edge
+		return pol
+	case sameExpr(x, big) && sameExpr(y, other): // big < other on the true edge
+		return !pol
+	}
+	return true
 }
